@@ -603,7 +603,10 @@ def mir_functions(prop):
         txt = open(os.path.join(SRC, fn)).read()
         if fn == "gen_cells.rs":
             txt = "\n".join(l for l in txt.splitlines() if "crate::" in l or "id=%s" % prop in l)
-        elif fn[:3] != pid and fn not in ("ops.rs", "acc.rs"):
+            for m in re.finditer(r"pub fn %s_(?:exact|acc)_([a-z0-9_]+?)_[0-9a-fmp]" % pid, txt):
+                if m.group(1) in defined:
+                    used.add(m.group(1))
+        elif fn[:3] != pid:
             continue
         for m in re.finditer(r"(?:\.|::)([a-z_][a-z0-9_]*)\s*\(", txt):
             if m.group(1) in defined:
